@@ -165,6 +165,10 @@ def main(argv):
         else:
             new_v.append(v)
     ev['coverage']['known_findings_reproduced'] = sorted(known_hit)
+    ev['coverage']['known_finding_instances'] = len(violations) - len(new_v)
+    # `violations` counts what the check reports as VIOLATION (instances of
+    # a listed known finding are counted above, not here)
+    ev['violations'] = len(new_v)
     with open(os.path.join(EVD, '%s.json' % pid), 'w') as f:
         json.dump(ev, f, indent=1, default=str)
     for k in known_hit.values():
